@@ -117,6 +117,7 @@ def _work_rand(args):
             else:
                 restr = [(i, int(rng.integers(0, nm))) for i in range(nf)] + [(0, int(rng.integers(0, nm)))]
             ev = []
+            cfg_nf, cfg_nm, cfg_restr = nf, nm, list(restr)
             try:
                 build = rng.integers(0, 256, (nm, 3)) * g
                 # the array the calculator is built with only fixes the sizes: its element type (lattice integers, single
@@ -133,6 +134,10 @@ def _work_rand(args):
                         mob[rng.integers(0, nm)] = fixed[rng.integers(0, nf)]
                     mbuf[...] = mob * g
                     v = float(calc(mbuf))
+                    # the same configuration in another memory layout (column-major, a transposed view, a strided view)
+                    lay = [np.asfortranarray(mbuf), np.ascontiguousarray(mbuf.T).T, np.repeat(mbuf, 2, axis=0)[::2]][len(ev) % 3]
+                    if float(calc(lay)) != v:
+                        v = float('nan')
                     ev.append({'op': 'Eval', 'mobile': mob.tolist(), 'finite': bool(math.isfinite(v)),
                                'nonneg': bool(v >= 0), 'cand': decompose(v, nm, g * g), 'value': v})
                     if hasattr(calc, 'chi2_molecules') and rng.random() < 0.5:
@@ -142,6 +147,12 @@ def _work_rand(args):
                         ev.append({'op': 'EvalPlain', 'mobile': mob.tolist(), 'finite': bool(math.isfinite(vp)),
                                    'nonneg': bool(vp >= 0), 'cand': decompose(vp, nm, g * g), 'value': vp})
                 # generic floats: invariances (tie-free with probability one)
+                cfg_nf, cfg_nm, cfg_restr = nf, nm, list(restr)
+                if tid % 40 == 7:
+                    # a pair big enough (static x mobile > 2^20) for a block-wise / approximate path to take over: the
+                    # relations between the three restraint paths still hold
+                    nf, nm = int(rng.integers(1400, 1700)), int(rng.integers(760, 900))
+                    restr = [(int(i), int(rng.integers(0, nm))) for i in rng.permutation(nf)[:nf // 3]] if restr else []
                 F = rng.normal(size=(nf, 3))
                 M = rng.normal(size=(nm, 3))
                 base = float(Chi2Calculator(F, M[::-1].copy(), restr if restr else None)(M))
@@ -169,9 +180,10 @@ def _work_rand(args):
             except Exception as exc:
                 import traceback
                 ev = [{'op': 'Exception', 'type': type(exc).__name__, 'text': traceback.format_exc()[-800:]}]
-            fh.write(json.dumps({'tid': tid, 'cfg': {'fixed': fixed.tolist(), 'nm': nm,
-                                                     'restr': [[i + 1, j + 1] for i, j in restr]},
-                                 'meta': {'seed': seed, 'shape': str(shape), 'nf': nf, 'nm': nm}, 'ev': ev}) + '\n')
+            fh.write(json.dumps({'tid': tid, 'cfg': {'fixed': fixed.tolist(), 'nm': cfg_nm,
+                                                     'restr': [[i + 1, j + 1] for i, j in cfg_restr]},
+                                 'meta': {'seed': seed, 'shape': str(shape), 'nf': cfg_nf, 'nm': cfg_nm, 'big_pair': bool(tid % 40 == 7)},
+                                 'ev': ev}) + '\n')
     return part
 
 
